@@ -72,6 +72,14 @@ def processLine (st : St) (line : String) : IO St := do
       if !same then
         IO.println s!"MISMATCH case={st.caseId} op={opS} model={(m.take 300).toString} impl={(obsS.take 300).toString}"
         st := { st with stats := st.stats.bump "mismatch" }
+      -- the shape hypotheses of the tree-pass theorems, evaluated on the model's run of this table
+      match st.tree with
+      | some t =>
+        let d := mkTable payload
+        for hyp in shapeAudit d (fuelFor d t) handle { tree := t } do
+          IO.println s!"PROPFAIL case={st.caseId} clause=shape-hypothesis feature={hyp} op={(opS.take 400).toString}"
+          st := { st with stats := st.stats.bump "propfail" }
+      | none => pure ()
       for (cl, feat) in oracle st curLen obs do
         IO.println s!"PROPFAIL case={st.caseId} clause={cl} feature={feat} op={(opS.take 400).toString} impl={(obsS.take 200).toString}"
         st := { st with stats := st.stats.bump "propfail" }
